@@ -364,6 +364,33 @@ Lemma bid_bidder_accept_stmt : forall bidder owner c payer fp fee ops, 0 <= fee 
   no_creation (ops ++ fee_ops payer fp fee) /\ credits_ok (ops ++ fee_ops payer fp fee) /\ takes_only_from (ops ++ fee_ops payer fp fee) [bidder; payer].
 Proof. intros bidder owner c payer fp fee ops Hfee H. exact (bid_bidder_accept_facts payer fp fee Hfee _ _ _ _ H). Qed.
 
+(* ---- wrapped currencies ---- *)
+(* the mint of a lock creates exactly the locked amount, in the lock's currency only *)
+Lemma eth_lock_mint_stmt : forall owner cur locked c,
+  minted c (effect_eth_lock_mint owner cur locked) - burned c (effect_eth_lock_mint owner cur locked) = if (cur =? c)%N then locked else 0.
+Proof.
+  intros. unfold effect_eth_lock_mint, minted, burned, op_mint, op_burn, tw, k_cur, k_bucket, bal, mk. cbn.
+  destruct (cur =? c)%N; cbn; lia.
+Qed.
+(* a redeem followed (any number of other operations later) by the refund of what it burnt is neutral: burn and refund cancel *)
+Lemma eth_redeem_then_refund_stmt : forall owner cur amount ops mid c, effect_eth_redeem_burn owner cur amount = Some ops ->
+  minted c (ops ++ mid ++ effect_eth_redeem_refund owner cur amount) - burned c (ops ++ mid ++ effect_eth_redeem_refund owner cur amount)
+  = minted c mid - burned c mid.
+Proof.
+  intros owner cur amount ops mid c H. unfold effect_eth_redeem_burn in H. destruct (0 <=? amount); [|discriminate]. injection H as <-.
+  assert (A : forall a b, minted c (a ++ b) = minted c a + minted c b) by (intros a b; induction a; simpl; lia).
+  assert (B : forall a b, burned c (a ++ b) = burned c a + burned c b) by (intros a b; induction a; simpl; lia).
+  rewrite !A, !B. unfold effect_eth_redeem_refund, minted, burned, op_mint, op_burn, tw, k_cur, k_bucket, bal, mk. cbn.
+  destruct (cur =? c)%N; cbn; lia.
+Qed.
+(* a redeem destroys, takes from its owner only and adds nothing *)
+Lemma eth_redeem_burn_stmt : forall owner cur amount payer fp fee ops, 0 <= fee -> effect_eth_redeem_burn owner cur amount = Some ops ->
+  no_creation (ops ++ fee_ops payer fp fee) /\ credits_ok (ops ++ fee_ops payer fp fee) /\ takes_only_from (ops ++ fee_ops payer fp fee) [owner; payer].
+Proof.
+  intros owner cur amount payer fp fee ops Hfee H. unfold effect_eth_redeem_burn in H. open_effect H.
+  split; [tw_crush|split; [cred_crush|deb_crush]].
+Qed.
+
 (* ---- allegation penalty / bounty (EndBlock, guilty verdict) ---- *)
 Lemma penalty_amount_nonneg total pct dec : 0 <= total -> 0 <= pct -> 0 < dec -> 0 <= penalty_amount total pct dec.
 Proof. intros. unfold penalty_amount. apply Z.div_pos; nia. Qed.
